@@ -57,7 +57,9 @@ func mintParamsStr(p minttypes.Params) string {
 // when accepted, on what BlockProvisions does (value or panic).
 func extremeMintParams(r *rand.Rand) minttypes.Params {
 	p := mintParamsFor(r)
-	switch r.Intn(6) {
+	switch r.Intn(7) {
+	case 5:
+		p.Phases[len(p.Phases)-1].YearCoefficient = sdkmath.LegacyMustNewDecFromStr("0.0001")
 	case 0:
 		p.Phases[0].Inflation = sdkmath.LegacyMustNewDecFromStr("-0.1")
 	case 1:
